@@ -234,6 +234,9 @@ class EdgeLandmark(BaseEdge):
             Whether the two edges are equal
 
         """
+        if not type(self) is type(other):
+            return False
+
         if not type(self.offset) is type(other.offset):  # noqa
             return False
 
